@@ -22,6 +22,7 @@
 #include <errno.h>
 #include <strings.h>
 #include <ctype.h>
+#include <stdarg.h>
 
 /* ------------------------------------------------------------------ the enumerated space */
 enum { CL_HTTP = 0, CL_TCP, CL_FILE, CL_OTHER };
@@ -245,6 +246,37 @@ static void reset_seam(void) {
 	g_armed = 0;
 }
 
+/* ------------------------------------------------------------------ violation reporting with a per-signature budget
+ * The runner reads the shards' stdout pipes one after the other, so a shard that prints more than a
+ * pipe buffer (64 KiB) stalls until it is read (and its case timer expires); vf itself prints at most
+ * 300 violations per shard in enumeration order. To keep the output small AND let every signature
+ * through, each signature gets a budget per shard: the first 4 violations are reported with the full
+ * text, the next 26 with a short text, the rest is only counted (counter violations_beyond_report_budget
+ * and outcome class "violation:<signature>"). A replayed case always reports in full; setting the
+ * environment variable C20_REPORT_ALL additionally lists every violation (signature, case) on stderr for triage. */
+static void report(const char *sig, const char *fmt, ...) __attribute__((format(printf, 2, 3)));
+static void report(const char *sig, const char *fmt, ...) {
+	static struct { char sig[100]; long n; } tab[96];
+	char d[1500];
+	va_list ap;
+	int i;
+	for (i = 0; i < 96 && tab[i].sig[0] && strcmp(tab[i].sig, sig) != 0; i++) {}
+	if (i == 96) i = 95;
+	if (!tab[i].sig[0]) snprintf(tab[i].sig, sizeof tab[i].sig, "%s", sig);
+	tab[i].n++;
+	vf_outcome("violation:%s", sig);
+	vf_count("violations_found", 1);
+	if (getenv("C20_REPORT_ALL")) fprintf(stderr, "C20VIOL %s\t%s\n", sig, vf_case_name());
+	if (tab[i].n <= 4 || vf_replaying()) {
+		va_start(ap, fmt);
+		vsnprintf(d, sizeof d, fmt, ap);
+		va_end(ap);
+		if (strlen(d) > 700) strcpy(d + 690, " ...");
+		vf_fail(sig, "%s", d);
+	} else if (tab[i].n <= 30) vf_fail(sig, "(same signature as reported before; replay the case for the full text)");
+	else vf_count("violations_beyond_report_budget", 1);
+}
+
 /* ------------------------------------------------------------------ PDU credentials (reference side)
  * PDU v2 request = TLV 0x220 (aggregation) / 0x320 (extension) { 01 header { 01 login id (NUL
  * terminated) ... } 02.. payload 1f mac-imprint }. The v2 MAC covers the serialized PDU from its first
@@ -336,12 +368,21 @@ static void oracle(const ccase *c, expect *e) {
 	}
 }
 
-static const char *first_diff(const char *a, const char *b) {
-	static char d[80];
-	size_t i = 0;
-	while (a[i] && a[i] == b[i]) i++;
-	snprintf(d, sizeof d, "first difference at offset %zu", i);
-	return d;
+/* the component of the EXPECTED url in which the first difference with the observed url lies */
+static const char *diff_component(const char *got, const char *exp) {
+	size_t i = 0, sch, auth;
+	const char *p = strstr(exp, "://"), *q, *f;
+	while (got[i] && got[i] == exp[i]) i++;
+	sch = p ? (size_t)(p - exp) + 3 : 0;
+	if (i < sch) return "scheme";
+	auth = sch + strcspn(exp + sch, "/?#");
+	if (i < auth) return "authority";
+	q = strchr(exp + auth, '?');
+	f = strchr(exp + auth, '#');
+	if (f && i >= (size_t)(f - exp)) return "fragment";
+	if (q && i >= (size_t)(q - exp)) return "query";
+	if (exp[i] == 0) return "trailing";
+	return "path";
 }
 
 static void check_credentials(const ccase *c, const expect *e, const unsigned char *b, size_t n) {
@@ -353,26 +394,26 @@ static void check_credentials(const ccase *c, const expect *e, const unsigned ch
 	const char *cand[] = {EXPL_KEY, UI_KEY[c->u], EXPL_ID, UI_USER[c->u], ""};
 	int i;
 	if (pdu_open(b, n, tag, &login, &mac, why, sizeof why) != 0) {
-		vf_fail("pdu-malformed", "%s over %s: emitted request (%zu bytes) %s: %s", c->uri, SV_NAME[c->v], n, why, vf_hex(b, n > 80 ? 80 : n));
+		report("pdu-malformed", "%s over %s: emitted request (%zu bytes) %s: %s", c->uri, SV_NAME[c->v], n, why, vf_hex(b, n > 80 ? 80 : n));
 		return;
 	}
 	vf_obs("login=%s alg=%d", login ? login : "(none)", mac.val[0]);
 	if (e->user == NULL) { vf_outcome("cred:silent"); return; }
 	if (login == NULL || (strcmp(login, e->user) != 0 && !(e->user2 && strcmp(login, e->user2) == 0)))
-		vf_fail("loginid-mismatch", "%s (explicit login id %s) over %s: PDU header login id is '%s', expected '%s'", c->uri, c->x ? EXPL_ID : "absent", SV_NAME[c->v], login ? login : "(absent)", e->user);
+		report("loginid-mismatch", "%s (explicit login id %s) over %s: PDU header login id is '%s', expected '%s'", c->uri, c->x ? EXPL_ID : "absent", SV_NAME[c->v], login ? login : "(absent)", e->user);
 	if (mac_ok(b, n, &mac, e->key)) vf_outcome("cred:%s", c->x ? "explicit" : "embedded");
 	else if (e->key2 && mac_ok(b, n, &mac, e->key2)) vf_outcome("cred:embedded-over-explicit-silent");
 	else {
 		const char *under = "none of the candidate keys";
 		for (i = 0; i < 5; i++) if (cand[i] && mac_ok(b, n, &mac, cand[i])) { under = cand_name[i]; break; }
-		vf_fail("mac-key-mismatch", "%s (explicit key %s) over %s: the emitted PDU's MAC does not verify under the expected key '%s'; it verifies under: %s", c->uri, c->x ? EXPL_KEY : "absent", SV_NAME[c->v], e->key, under);
+		report("mac-key-mismatch", "%s (explicit key %s) over %s: the emitted PDU's MAC does not verify under the expected key '%s'; it verifies under: %s", c->uri, c->x ? EXPL_KEY : "absent", SV_NAME[c->v], e->key, under);
 	}
 }
 
 static void check_leak(const ccase *c, const char *where, const char *s) {
 	if (!c->u) return;
 	if (strstr(s, UI_KEY[c->u]) != NULL || strchr(s, '@') != NULL || strstr(s, UI_USER[c->u]) != NULL)
-		vf_fail("credential-leak", "%s over %s: the %s handed to the transport is '%s' and contains the embedded user name / key", c->uri, SV_NAME[c->v], where, s);
+		report("credential-leak", "%s over %s: the %s handed to the transport is '%s' and contains the embedded user name / key", c->uri, SV_NAME[c->v], where, s);
 }
 
 static void evaluate(const ccase *c, int crashed) {
@@ -390,31 +431,31 @@ static void evaluate(const ccase *c, int crashed) {
 	if (crashed) {
 		char sig[120];
 		snprintf(sig, sizeof sig, "crash:%s:%s", crashed == SIGSEGV ? "SEGV" : "BUS", O.stage);
-		vf_fail(sig, "%s (explicit credentials %s) over %s: wild memory access (signal %d) inside %s", c->uri, c->x ? "present" : "absent", SV_NAME[c->v], crashed, O.stage);
+		report(sig, "%s (explicit credentials %s) over %s: wild memory access (signal %d) inside %s", c->uri, c->x ? "present" : "absent", SV_NAME[c->v], crashed, O.stage);
 		vf_outcome("crash:%s:%s", kind, CLS_NAME[SCH[c->b].cls]);
 		return;
 	}
 	if (e.refuse) {
 		/* asynchronous service: file and unknown schemes are refused */
-		if (O.set_res == KSI_OK) vf_fail("async-not-refused", "%s over %s: the asynchronous service must refuse this scheme but KSI_AsyncService_setEndpoint returned KSI_OK", c->uri, SV_NAME[c->v]);
-		if (observed != '-') vf_fail("refused-but-transport-used", "%s over %s: transport activity '%c' (url '%s', resolver '%s')", c->uri, SV_NAME[c->v], observed, O.url, sn_last_host);
+		if (O.set_res == KSI_OK) report("async-not-refused", "%s over %s: the asynchronous service must refuse this scheme but KSI_AsyncService_setEndpoint returned KSI_OK", c->uri, SV_NAME[c->v]);
+		if (observed != '-') report("refused-but-transport-used", "%s over %s: transport activity '%c' (url '%s', resolver '%s')", c->uri, SV_NAME[c->v], observed, O.url, sn_last_host);
 		vf_outcome("refused:async:%s", CLS_NAME[SCH[c->b].cls]);
 		return;
 	}
 	if (!accepted) {
 		if (e.must_accept)
-			vf_fail("wellformed-refused", "%s (explicit credentials %s) over %s: well-formed URI refused: %s returned 0x%x; expected the %s transport", c->uri, c->x ? "present" : "absent", SV_NAME[c->v],
+			report(O.set_res != KSI_OK ? "wellformed-refused:config" : "wellformed-refused:request", "%s (explicit credentials %s) over %s: well-formed URI refused: %s returned 0x%x; expected the %s transport", c->uri, c->x ? "present" : "absent", SV_NAME[c->v],
 			        O.fail_stage ? O.fail_stage : "?", O.set_res != KSI_OK ? O.set_res : O.send_res, e.transport == 'h' ? "HTTP" : e.transport == 't' ? "TCP" : "file");
 		else vf_outcome("silent-refused:%s:%s", kind, e.silent_why);
-		if (observed != '-') vf_fail("refused-but-transport-used", "%s over %s: transport activity '%c' although the URI was refused", c->uri, SV_NAME[c->v], observed);
+		if (observed != '-') report("refused-but-transport-used", "%s over %s: transport activity '%c' although the URI was refused", c->uri, SV_NAME[c->v], observed);
 		return;
 	}
 	if (observed == '-') {
-		vf_fail("no-transport-activity", "%s over %s: accepted, request started (perform 0x%x) but nothing reached any transport", c->uri, SV_NAME[c->v], O.perf_res);
+		report("no-transport-activity", "%s over %s: accepted, request started (perform 0x%x) but nothing reached any transport", c->uri, SV_NAME[c->v], O.perf_res);
 		return;
 	}
 	if (observed != e.transport) {
-		vf_fail("wrong-transport", "%s over %s: expected transport '%c', observed '%c' (url '%s', resolver '%s:%s', fopen '%s')", c->uri, SV_NAME[c->v], e.transport, observed, O.url, sn_last_host, sn_last_port, O.fpath);
+		report("wrong-transport", "%s over %s: expected transport '%c', observed '%c' (url '%s', resolver '%s:%s', fopen '%s')", c->uri, SV_NAME[c->v], e.transport, observed, O.url, sn_last_host, sn_last_port, O.fpath);
 		if (http && e.check_leak) check_leak(c, "URL", O.url);
 		if (tcp && e.check_leak) check_leak(c, "resolver host", sn_last_host);
 		return;
@@ -422,8 +463,11 @@ static void evaluate(const ccase *c, int crashed) {
 	vf_outcome("transport:%s:%s:%s", observed == 'h' ? "http" : observed == 't' ? "tcp" : "file", kind, CLS_NAME[SCH[c->b].cls]);
 	switch (observed) {
 		case 'h':
-			if (strcmp(O.url, e.url) != 0)
-				vf_fail("url-mismatch", "%s over %s: URL handed to the HTTP library is '%s', expected '%s' (%s)", c->uri, SV_NAME[c->v], O.url, e.url, first_diff(O.url, e.url));
+			if (strcmp(O.url, e.url) != 0) {
+				char sig[60];
+				snprintf(sig, sizeof sig, "url-mismatch:%s", diff_component(O.url, e.url));
+				report(sig, "%s over %s: URL handed to the HTTP library is '%s', expected '%s'", c->uri, SV_NAME[c->v], O.url, e.url);
+			}
 			if (e.check_leak) check_leak(c, "URL", O.url);
 			check_credentials(c, &e, O.body.p, O.body.n);
 			break;
@@ -431,16 +475,16 @@ static void evaluate(const ccase *c, int crashed) {
 			/* the host handed to name resolution: the host as written; for an IPv6 literal the address
 			 * with or without the URI brackets is accepted (SILENT: resolver syntax of IP literals) */
 			if (strcmp(sn_last_host, HOSTS[c->h]) != 0 && strcmp(sn_last_host, HOSTS_BARE[c->h]) != 0)
-				vf_fail("host-mismatch", "%s over %s: host handed to getaddrinfo is '%s', expected '%s'", c->uri, SV_NAME[c->v], sn_last_host, HOSTS[c->h]);
+				report("host-mismatch", "%s over %s: host handed to getaddrinfo is '%s', expected '%s'", c->uri, SV_NAME[c->v], sn_last_host, HOSTS[c->h]);
 			if (PORTS[c->p]) {
 				char ps[16];
 				snprintf(ps, sizeof ps, "%u", PORTS[c->p]);
-				if (strcmp(sn_last_port, ps) != 0) vf_fail("port-mismatch", "%s over %s: port handed to getaddrinfo is '%s', expected '%s'", c->uri, SV_NAME[c->v], sn_last_port, ps);
-				if (conn && conn->port != (int)PORTS[c->p]) vf_fail("port-mismatch", "%s over %s: connected to port %d, expected %u", c->uri, SV_NAME[c->v], conn->port, PORTS[c->p]);
+				if (strcmp(sn_last_port, ps) != 0) report("port-mismatch", "%s over %s: port handed to getaddrinfo is '%s', expected '%s'", c->uri, SV_NAME[c->v], sn_last_port, ps);
+				if (conn && conn->port != (int)PORTS[c->p]) report("port-mismatch", "%s over %s: connected to port %d, expected %u", c->uri, SV_NAME[c->v], conn->port, PORTS[c->p]);
 			}
-			if (conn && strcmp(conn->host, sn_last_host) != 0) vf_fail("host-mismatch", "%s over %s: connected to '%s' but resolved '%s'", c->uri, SV_NAME[c->v], conn->host, sn_last_host);
+			if (conn && strcmp(conn->host, sn_last_host) != 0) report("host-mismatch", "%s over %s: connected to '%s' but resolved '%s'", c->uri, SV_NAME[c->v], conn->host, sn_last_host);
 			if (e.check_leak) check_leak(c, "resolver host", sn_last_host);
-			if (conn == NULL || conn->out.n == 0) vf_fail("no-transport-activity", "%s over %s: TCP transport selected but no request bytes were written (connections %d)", c->uri, SV_NAME[c->v], sn_nconn);
+			if (conn == NULL || conn->out.n == 0) report("no-transport-activity", "%s over %s: TCP transport selected but no request bytes were written (connections %d)", c->uri, SV_NAME[c->v], sn_nconn);
 			else check_credentials(c, &e, conn->out.p, conn->out.n);
 			break;
 		default:
@@ -473,22 +517,22 @@ static void split_case(const ccase *c) {
 	run_guarded(exec_split, c, &crashed);
 	vf_count("impl_calls", 1);
 	if (crashed) {
-		vf_fail("crash:SEGV:KSI_UriSplitBasic", "%s: wild memory access (signal %d)", c->uri, crashed);
+		report("crash:SEGV:KSI_UriSplitBasic", "%s: wild memory access (signal %d)", c->uri, crashed);
 		vf_case_end(1);
 		return;
 	}
 	vf_obs("res=%x s=%s h=%s p=%u a=%s", SP.res, SP.scheme ? SP.scheme : "-", SP.host ? SP.host : "-", SP.res == KSI_OK ? SP.port : 0, SP.path ? SP.path : "-");
 	if (SP.res != KSI_OK) {
-		vf_fail("split-refused", "KSI_UriSplitBasic('%s') returned 0x%x for a well-formed URI", c->uri, SP.res);
+		report("split-refused", "KSI_UriSplitBasic('%s') returned 0x%x for a well-formed URI", c->uri, SP.res);
 		vf_outcome("split:refused");
 	} else {
 		/* scheme: compared case-insensitively (SILENT: whether the spelling is normalised) */
-		if (SP.scheme == NULL || strcasecmp(SP.scheme, c->scheme) != 0) vf_fail("split-mismatch:scheme", "KSI_UriSplitBasic('%s'): scheme '%s', expected '%s'", c->uri, SP.scheme ? SP.scheme : "(null)", c->scheme);
+		if (SP.scheme == NULL || strcasecmp(SP.scheme, c->scheme) != 0) report("split-mismatch:scheme", "KSI_UriSplitBasic('%s'): scheme '%s', expected '%s'", c->uri, SP.scheme ? SP.scheme : "(null)", c->scheme);
 		/* host: IPv6 literal with or without brackets (SILENT) */
-		if (SP.host == NULL || (strcmp(SP.host, HOSTS[c->h]) != 0 && strcmp(SP.host, HOSTS_BARE[c->h]) != 0)) vf_fail("split-mismatch:host", "KSI_UriSplitBasic('%s'): host '%s', expected '%s'", c->uri, SP.host ? SP.host : "(null)", HOSTS[c->h]);
-		if (SP.port != PORTS[c->p]) vf_fail("split-mismatch:port", "KSI_UriSplitBasic('%s'): port %u, expected %u", c->uri, SP.port, PORTS[c->p]);
+		if (SP.host == NULL || (strcmp(SP.host, HOSTS[c->h]) != 0 && strcmp(SP.host, HOSTS_BARE[c->h]) != 0)) report("split-mismatch:host", "KSI_UriSplitBasic('%s'): host '%s', expected '%s'", c->uri, SP.host ? SP.host : "(null)", HOSTS[c->h]);
+		if (SP.port != PORTS[c->p]) report("split-mismatch:port", "KSI_UriSplitBasic('%s'): port %u, expected %u", c->uri, SP.port, PORTS[c->p]);
 		if (PATHS[c->a] == NULL ? (SP.path != NULL && SP.path[0] != 0) : (SP.path == NULL || strcmp(SP.path, PATHS[c->a]) != 0))
-			vf_fail("split-mismatch:path", "KSI_UriSplitBasic('%s'): path '%s', expected '%s'", c->uri, SP.path ? SP.path : "(null)", PATHS[c->a] ? PATHS[c->a] : "(absent)");
+			report("split-mismatch:path", "KSI_UriSplitBasic('%s'): path '%s', expected '%s'", c->uri, SP.path ? SP.path : "(null)", PATHS[c->a] ? PATHS[c->a] : "(absent)");
 		vf_outcome("split:ok");
 	}
 	KSI_free(SP.scheme); KSI_free(SP.host); KSI_free(SP.path);
